@@ -192,7 +192,51 @@ def run(tier, seed):
         if not common.close(mc, const, 1e-9, 1e-10):
             sh.disagree(stim, mc, const, "normalization_constant differs from the model after this history")
 
-    suites = [st, sh, sx, sg]
+    # ---- many dimensions: the constant must not under- or overflow ---------------------------------
+    sd = Suite("C14.dimensions", "Normal (scalar, per-dimension, full diagonal-matrix covariance) and Laplace with 50-600 dimensions and variances far from 1 "
+               "(the determinant itself under- or overflows, its logarithm does not): misfit after normalize() vs scipy and vs the model; 1e-9 relative; non-trivial = all")
+    reqs, metas = [], []
+    for _ in range(60 if thorough else 16):
+        d = rnd.choice([50, 120, 300, 400, 600])
+        scale = rnd.choice([0.01, 0.03, 0.2, 5.0, 30.0, 200.0])
+        enc = rnd.choice(["normalscalar", "normaldiag", "normalfull", "laplace"])
+        mu = np.array([[rnd.uniform(-1, 1)] for _ in range(d)])
+        x = mu + np.array([[rnd.gauss(0, 1) * math.sqrt(scale)] for _ in range(d)])
+        if enc == "laplace":
+            b = np.array([[scale * rnd.uniform(0.5, 2.0)] for _ in range(d)])
+            obj = D.Laplace(mu.copy(), b.copy())
+            desc = {"kind": "laplace", "mu": mu.ravel().tolist(), "b": b.ravel().tolist()}
+            proto = f"laplace {vhex(mu)} {vhex(b)} 1 - -"
+        else:
+            var = np.array([[scale * rnd.uniform(0.5, 2.0)] for _ in range(d)])
+            if enc == "normalscalar":
+                var = np.ones((d, 1)) * var[0, 0]
+                obj = D.Normal(mu.copy(), float(var[0, 0]))
+            elif enc == "normaldiag":
+                obj = D.Normal(mu.copy(), var.copy())
+            else:
+                obj = D.Normal(mu.copy(), np.diag(var.ravel()))
+            desc = {"kind": enc, "mu": mu.ravel().tolist(), "var": var.ravel().tolist()}
+            proto = f"normaldiag {vhex(mu)} {vhex(var)} 1 - -"
+        with np.errstate(all="ignore"):
+            obj.normalize()
+            m = float(obj.misfit(x.copy()))
+        ref = -logpdf(desc, x)
+        stim = {"encoding": enc, "dimensions": d, "scale": scale, "seed_case": len(metas)}
+        sd.case(dict(stim, mu0=float(mu[0, 0])), nontrivial=True, sample={"encoding": enc, "dimensions": d, "scale": scale, "misfit": m, "neg_log_pdf": ref} if len(sd.samples) < 3 else None)
+        sd.count(f"encoding={enc}")
+        if not common.close(m, ref, 1e-9, 1e-9):
+            findings.append(Finding("C14", f"{enc} with {d} dimensions and variances/dispersions of order {scale}: misfit after normalize() is {m!r}, -log pdf = {ref!r}",
+                                    {"kind": "density", "class": enc, "many_dimensions": True},
+                                    {"oracle": "scipy", "stimulus": dict(stim, distribution=desc, x=x.ravel().tolist()), "misfit": m, "neg_log_pdf": ref}))
+        reqs.append(f"c05.eval {proto} {vhex(x)}")
+        metas.append((stim, m))
+    for (stim, m), ans in zip(metas, lean_batch(reqs)):
+        mm = Reader(ans[3:]).flt()
+        if not common.close(mm, m, 1e-9, 1e-9):
+            sd.disagree(stim, mm, m, "normalised misfit in many dimensions differs from the model")
+
+    suites = [st, sh, sx, sd, sg]
     # ---- thorough: large batches vs closed-form moments (supporting) -----------------------------
     if thorough:
         sm = Suite("C14.moments", "large i.i.d. batches of generate() vs closed-form first/second moments (|z| < 6): supporting evidence for 'columns are distributed "
